@@ -1,7 +1,7 @@
 (* Correspondence driver for the partial cache (C12): every case carries operations and what
    was observed on the real partialCache (through the hook verif_export_cache.go). *)
 From Coq Require Import ZArith List Bool.
-From DV Require Import Model.Cache Gen.Consts Corr.CorrBase.
+From DV Require Import Model.Cache Gen.Consts Gen.AggWindow Corr.CorrBase.
 Import ListNotations.
 Open Scope Z_scope.
 
@@ -47,7 +47,10 @@ Inductive ccase :=
 | PCase (chained : bool) (evs : list nev) (fr : list (cid * list Z)) (fk : list (Z * list cid))
     (* partial packets with real threshold-BLS partial signatures: the harness accepts a packet
        iff the real VerifyPartial accepts it under DigestBeacon(round, prev) *)
-| VCase (chained : bool) (signer r : Z) (prev : list Z) (r' : Z) (prev' : list Z) (valid : bool).
+| VCase (chained : bool) (signer r : Z) (prev : list Z) (r' : Z) (prev' : list Z) (valid : bool)
+| QCase (sent returned : Z).
+    (* engine "pending": sent = verified partials of one member handed to a real Handler whose
+       aggregator is stalled, returned = how many of those calls returned *)
     (* a partial made for (r, prev) checked against (r', prev') by the real VerifyPartial *)
 
 Definition kind_of (chained : bool) : scheme_kind := if chained then Chained else Unchained.
@@ -63,6 +66,7 @@ Definition ok (x : ccase) : bool :=
       same_state (pc_run max_partials_per_node pc_init (cops_of (kind_of ch) evs)) fr fk
   | VCase ch i r prev r' prev' valid =>
       Bool.eqb (pkt_valid (kind_of ch) (mkPkt r' prev' (honest_sig (kind_of ch) i r prev))) valid
+  | QCase sent returned => np_run default_partial_chan_buffer 0 (Z.to_nat sent) =? returned
   end.
 
 Definition mismatches (cs : list ccase) : list Z := mism_from ok 0 cs.
